@@ -20,12 +20,12 @@ ASSUMPTIONS = [
     "ratio threshold 6 separates third order (7.25-9.79 observed on the repaired tree) from second order (3.98-4.83 on the pinned tree)",
     "rounding floor for the ratio: smaller error > max(1e-11, 1.3e-11 e^G); refinement cases drawn with G <= 10",
 ]
-MIN_NONTRIVIAL = {"quick": 120, "thorough": 2000}
-TIMEOUT = {"quick": 900, "thorough": 3000}
+MIN_NONTRIVIAL = {"quick": 120, "thorough": 8000}
+TIMEOUT = {"quick": 900, "thorough": 7000}
 
 
 def cases(tier, seed):
-    n = 160 if tier == "quick" else 2400
+    n = 160 if tier == "quick" else 12000
     out = [{"seed": seed, "idx": i, "kind": "closed_form"} for i in range(n)]
     out += [{"seed": seed, "idx": i, "kind": "order"} for i in range(2 * n)]
     return out
